@@ -96,11 +96,12 @@ inductive Consumer (Val : Type) where
   | trigX (c : Arg Val) (t : PId) (deps : List PId)   -- where: `if self.value: trigger`
   | trigY (c : Arg Val) (t : PId) (deps : List PId)   -- where: `if not self.value: trigger`
   | watch (k : Nat) (n : NId) (deps : List PId)       -- .rx.watch callback number k on node n
-  | sync (h : Nat) (n : NId) (deps : List PId)        -- `_sync_refs` of holder h: a Parameter that holds node n as a reference
-                                                      -- (precedence −1, registered after the invalidators of everything n reads)
+  | sync (h : Nat) (n : NId) (deps : List PId) (at_ : Nat)
+      -- `_sync_refs` of holder h: a Parameter that holds node n as a reference (precedence −1, registered when
+      -- `at_` nodes existed: after their invalidators — which cover everything n reads — and before those of later nodes)
 
 def Consumer.deps {Val} : Consumer Val → List PId
-  | .trigX _ _ d => d | .trigY _ _ d => d | .watch _ _ d => d | .sync _ _ d => d
+  | .trigX _ _ d => d | .trigY _ _ d => d | .watch _ _ d => d | .sync _ _ d _ => d
 
 def Consumer.isSync {Val} : Consumer Val → Bool
   | .sync .. => true
@@ -372,6 +373,19 @@ what the precedence −1 watchers of all nodes do when parameter `q` changes -/
 def invalidate (w : World Val Err Op) (q : PId) : World Val Err Op :=
   { w with nodes := w.nodes.zipIdx.map fun (nd, i) => invNode w q nd i }
 
+/-- the invalidation watchers of the nodes created at position `k` or later (they are registered after a
+`_sync_refs` watcher installed when `k` nodes existed, so they run after it) -/
+def rootsHitFrom (w : World Val Err Op) (q : PId) (k : Nat) : List NId :=
+  (w.nodes.zipIdx.filter fun (nd, j) => decide (k ≤ j) && hitObj w q nd).map (·.1.root)
+
+def invNodeFrom (w : World Val Err Op) (q : PId) (k : Nat) (nd : Node Val Err Op) (i : NId) : Node Val Err Op :=
+  let nd := if decide (k ≤ i) && hitObj w q nd then { nd with error := none } else nd
+  let nd := if decide (k ≤ i) && nd.iparams.contains q then { nd with dirty := true, error := none } else nd
+  if (rootsHitFrom w q k).contains i then { nd with dirtyObj := true } else nd
+
+def invalidateFrom (w : World Val Err Op) (q : PId) (k : Nat) : World Val Err Op :=
+  { w with nodes := w.nodes.zipIdx.map fun (nd, i) => invNodeFrom w q k nd i }
+
 /-- the precedence-0 watchers of parameter `q`, in registration order.
 src: depends.py depends — the function form registers `list(dict.fromkeys(names))` per owner, so a
 consumer that depends on `q` several times is still registered (and called) once -/
@@ -379,38 +393,41 @@ def consumersOf (w : World Val Err Op) (q : PId) : List (Consumer Val) :=
   w.consumers.filter fun c => c.deps.contains q
 
 /-- `sorted(watchers, key=precedence)` (stable): the `_sync_refs` watchers (−1) before the precedence-0 ones.
-All invalidation watchers are taken to have run before (see the header; checked by correspondence). -/
+All invalidation watchers are run before; those registered after a `_sync_refs` watcher run again after it
+(`invalidateFrom`), which is where they sit in the real order (the two orders differ only in `_dirty_obj`
+of roots that the sync's read has cleared; checked by the comparison of internal flags). -/
 def dispatchOrder (w : World Val Err Op) (q : PId) : List (Consumer Val) :=
   (consumersOf w q).filter (·.isSync) ++ (consumersOf w q).filter (fun c => !c.isSync)
 
 /-- run the remaining watchers in order; the first exception aborts the dispatch -/
-def runConsumers (S : Sem Val Err Op) (fuel : Nat) :
+def runConsumers (S : Sem Val Err Op) (fuel : Nat) (q : PId) :
     List (Consumer Val) → World Val Err Op → List (Nat × Val) → Outcome Val Err × World Val Err Op
   | [], w, log => (.set log none, w)
   | c :: cs, w, log =>
     match c with
     | .trigX cnd t _ =>
       match run S fuel (.arg cnd) w with
-      | (.ok cv, w1) => runConsumers S fuel cs (if S.truthy cv then invalidate w1 t else w1) log
+      | (.ok cv, w1) => runConsumers S fuel q cs (if S.truthy cv then invalidate w1 t else w1) log
       | (.error (.py e), w1) => (.set log (some e), w1)
       | (.error .fuel, w1) => (.fuel, w1)
       | (.error .bad, w1) => (.bad, w1)
     | .trigY cnd t _ =>
       match run S fuel (.arg cnd) w with
-      | (.ok cv, w1) => runConsumers S fuel cs (if S.truthy cv then w1 else invalidate w1 t) log
+      | (.ok cv, w1) => runConsumers S fuel q cs (if S.truthy cv then w1 else invalidate w1 t) log
       | (.error (.py e), w1) => (.set log (some e), w1)
       | (.error .fuel, w1) => (.fuel, w1)
       | (.error .bad, w1) => (.bad, w1)
     | .watch k n _ =>
       match run S fuel (.resolve n) w with
-      | (.ok v, w1) => runConsumers S fuel cs w1 (log ++ [(k, v)])
+      | (.ok v, w1) => runConsumers S fuel q cs w1 (log ++ [(k, v)])
       | (.error (.py e), w1) => (.set log (some e), w1)
       | (.error .fuel, w1) => (.fuel, w1)
       | (.error .bad, w1) => (.bad, w1)
-    | .sync h n _ =>
-      -- src: parameterized.py Parameters._sync_refs — resolve_value(ref), then update the holder
+    | .sync h n _ k =>
+      -- src: parameterized.py Parameters._sync_refs — resolve_value(ref), then update the holder;
+      -- then the invalidation watchers of the nodes created after the holder
       match run S fuel (.resolve n) w with
-      | (.ok v, w1) => runConsumers S fuel cs { w1 with holders := w1.holders.set h v } log
+      | (.ok v, w1) => runConsumers S fuel q cs (invalidateFrom { w1 with holders := w1.holders.set h v } q k) log
       | (.error (.py e), w1) => (.set log (some e), w1)
       | (.error .fuel, w1) => (.fuel, w1)
       | (.error .bad, w1) => (.bad, w1)
@@ -562,7 +579,7 @@ def step (S : Sem Val Err Op) (fuel : Nat) (w : World Val Err Op) : Stmt Val Op 
     let old := w.vals p
     let w1 := { w with vals := fun q => if q = p then v else w.vals q }
     if S.isEqual old v then (.set [] none, w1)            -- onlychanged watchers are not called
-    else runConsumers S fuel (dispatchOrder w1 p) (invalidate w1 p) []
+    else runConsumers S fuel p (dispatchOrder w1 p) (invalidate w1 p) []
   | .read n =>
     match run S fuel (.resolve n) w with
     | (.ok v, w1) => (.read v, w1)
@@ -578,7 +595,7 @@ def step (S : Sem Val Err Op) (fuel : Nat) (w : World Val Err Op) : Stmt Val Op 
       if nd.params.isEmpty then (.bad, w) else
       match run S fuel (.resolve n) w with
       | (.ok v, w1) =>
-        (.created, { w1 with consumers := w1.consumers ++ [.sync w1.holders.length n nd.params],
+        (.created, { w1 with consumers := w1.consumers ++ [.sync w1.holders.length n nd.params w1.nodes.length],
                              holders := w1.holders ++ [v] })
       | (.error (.py e), w1) => (.createErr e, w1)
       | (.error .fuel, w1) => (.fuel, w1)
